@@ -139,7 +139,7 @@ def run(ctx):
     # 3. binding B
     for salt in range(1 if q else 4):
         ctx.validate_recording(b, 'Push_Trace', 'Push_Trace.cfg',
-                               opts=dict(n=12 if q else 40, salt=salt, quiet=3 if salt == 3 else 2), dfs=True,
+                               opts=dict(n=12 if q else (15 if salt == 3 else 40), salt=salt, quiet=3 if salt == 3 else 2), dfs=True,
                                timeout=14400, selftest=(salt == 0))
 
 
